@@ -80,11 +80,13 @@ theorem propose_lt {n : Nat} {s : St} {cid : Nat} {props : Option (List Nat)} {o
     · cases h
     · split at h
       · cases h
-      · rename_i q hq
-        injection h with h; injection h with h1 h2; subst h1
-        have := List.mem_of_getElem? hq
-        simp [List.mem_filter] at this
-        exact this.1
+      · split at h
+        · cases h
+        · rename_i q hq
+          injection h with h; injection h with h1 h2; subst h1
+          have := List.mem_of_getElem? hq
+          simp [List.mem_filter] at this
+          exact this.1
 
 /-- a random proposal is a member of the cluster being updated (kmedoids.py L612, L514) -/
 theorem propose_random_member {n : Nat} {s : St} {cid : Nat} {orc orc' : List Nat} {p : Nat}
@@ -95,11 +97,13 @@ theorem propose_random_member {n : Nat} {s : St} {cid : Nat} {orc orc' : List Na
   · cases h
   · split at h
     · cases h
-    · rename_i q hq
-      injection h with h; injection h with h1 h2; subst h1
-      have := List.mem_of_getElem? hq
-      simp [List.mem_filter] at this
-      exact this.2
+    · split at h
+      · cases h
+      · rename_i q hq
+        injection h with h; injection h with h1 h2; subst h1
+        have := List.mem_of_getElem? hq
+        simp [List.mem_filter] at this
+        exact this.2
 
 /-! ### one sweep -/
 
